@@ -30,7 +30,9 @@ const (
 func (t *sqliToken) parseStringCore(s string, length, pos, offset int, delimiter byte) int {
 	// offset is to skip the perhaps first quote char
 	var (
-		str = s[pos+offset:]
+		start = pos + offset
+		// qpos is the offset in s of the candidate closing delimiter
+		qpos = start
 	)
 
 	if offset > 0 {
@@ -42,31 +44,31 @@ func (t *sqliToken) parseStringCore(s string, length, pos, offset int, delimiter
 	}
 
 	for {
-		index := strings.IndexByte(str, delimiter)
+		index := strings.IndexByte(s[qpos:], delimiter)
 		if index != -1 {
-			str = str[index:]
+			qpos += index
 		}
 
 		switch {
 		case index == -1:
 			// string ended with no trailing quote
 			// assign what we have
-			t.assign(sqliTokenTypeString, pos+offset, length-pos-offset, s[pos+offset:])
+			t.assign(sqliTokenTypeString, start, length-start, s[start:])
 			t.strClose = byteNull
 			return length
-		case isBackslashEscaped(s[pos+offset : pos+offset+strings.Index(s[pos+offset:], str)]):
+		case isBackslashEscaped(s[start:qpos]):
 			// keep going, move ahead one character
-			str = str[1:]
+			qpos++
 			continue
-		case isDoubleDelimiterEscaped(str):
+		case isDoubleDelimiterEscaped(s[qpos:]):
 			// keep going, move ahead two characters
-			str = str[2:]
+			qpos += 2
 			continue
 		default:
 			// hey it's a normal string
-			t.assign(sqliTokenTypeString, pos+offset, len(s[pos+offset:])-len(str), s[pos+offset:])
+			t.assign(sqliTokenTypeString, start, qpos-start, s[start:])
 			t.strClose = delimiter
-			return len(s) - len(str) + 1
+			return qpos + 1
 		}
 	}
 }
